@@ -17,13 +17,17 @@ import (
 
 // thor's syncLogDB prints a progress bar to stdout
 func quietSync(repo *chain.Repository, ldb *logdb.LogDB) error {
+	return quietSyncCtx(context.Background(), repo, ldb)
+}
+
+func quietSyncCtx(ctx context.Context, repo *chain.Repository, ldb *logdb.LogDB) error {
 	old := os.Stdout
 	nf, err := os.OpenFile(os.DevNull, os.O_WRONLY, 0)
 	if err == nil {
 		os.Stdout = nf
 		defer func() { os.Stdout = old; nf.Close() }()
 	}
-	return synclogdb.Sync(context.Background(), repo, ldb, false)
+	return synclogdb.Sync(ctx, repo, ldb, false)
 }
 
 // probe imports blk on a throw-away copy of the node's store (fresh log db) and reports whether it becomes best and how
@@ -96,7 +100,7 @@ func (s *stack) crashDeliver(blk *block.Block, atBulk bool) bool {
 		return true
 	}
 	s.evs = append(s.evs, ev)
-	s.node.Node.VerifClose()
+	s.close()
 	// restart: thor's start-up order (genesis build, repository, genesis logs, syncLogDB, engine, node).
 	// A node that does not come back after this crash is an observation on the real code.
 	var nd *sim.Node
@@ -107,7 +111,7 @@ func (s *stack) crashDeliver(blk *block.Block, atBulk bool) bool {
 		s.die(re, trace.Ev{"b": name, "before": want})
 		return true
 	}
-	s.node = nd
+	s.node, s.closed = nd, false
 	s.api = newAPI(nd.Repo, s.ldb)
 	s.checkpoint(trace.Ev{"e": "Restart"}, s.nq, 2)
 	return true
